@@ -101,7 +101,7 @@ func idx(s []byte) []int {
 func Case(w *vt.W, rng *rand.Rand, id, maxLen int) {
 	minLen := []int{40, 50, 60, 80, 100}[rng.Intn(5)]
 	minID := []float64{0.8, 0.85, 0.9, 0.94}[rng.Intn(4)]
-	self := rng.Intn(4) == 0
+	self := rng.Intn(4) == 0 || id%8 == 4
 	lt := 2000 + rng.Intn(maxLen-1999)
 	nplants := 1 + rng.Intn(3)
 	// settings for which Optimise cannot keep the filter's seed as long as the minimum hit length (it halves
@@ -122,6 +122,9 @@ func Case(w *vt.W, rng *rand.Rand, id, maxLen int) {
 	var Q []byte
 	var plants []Plant
 	// maxLn bounds the copy (indels included) so that it fits its slot
+	// forceRev: the next copy is reverse complemented whatever is drawn (every other self comparison has an
+	// inverted repeat, so that both halves of the complement pass of a self comparison are always in the sample)
+	forceRev := false
 	place := func(tsrc []byte, ta, maxLn int) (int, int, bool, int, int, []byte) {
 		ln := minLen*3/2 + rng.Intn(minLen*2)
 		if ln > maxLn-8 {
@@ -158,7 +161,7 @@ func Case(w *vt.W, rng *rand.Rand, id, maxLen int) {
 				} else {
 					cp = append(cp[:at], append(randSeq(rng, g), cp[at:]...)...)
 				}
-				rev := rng.Intn(3) == 0
+				rev := rng.Intn(3) == 0 || forceRev
 				if rev {
 					cp = revcomp(cp)
 				}
@@ -166,7 +169,7 @@ func Case(w *vt.W, rng *rand.Rand, id, maxLen int) {
 			}
 		}
 		cp = mutate(rng, cp, subs, indels)
-		rev := rng.Intn(3) == 0
+		rev := rng.Intn(3) == 0 || forceRev
 		if rev {
 			cp = revcomp(cp)
 		}
@@ -187,7 +190,9 @@ func Case(w *vt.W, rng *rand.Rand, id, maxLen int) {
 			if sslot-sslot/4-2 < maxLn {
 				maxLn = sslot - sslot/4 - 2
 			}
+			forceRev = i == 0 && id%2 == 0
 			a, b, rev, subs, indels, cp := place(T[:(i+1)*sslot], ta, maxLn)
+			forceRev = false
 			qa := half + i*slot + rng.Intn(slot-len(cp)-1)
 			copy(T[qa:qa+len(cp)], cp)
 			plants = append(plants, Plant{a, b, qa, qa + len(cp), rev, subs, indels, false})
